@@ -172,41 +172,120 @@ def product(axes):
     return [OrderedDict(zip(keys, c)) for c in itertools.product(*[axes[k] for k in keys])]
 
 
-def pairwise(axes, valid=None):
-    """Deterministic greedy all-pairs covering array over `axes` (OrderedDict name -> list of hashable values).
-    Every pair of values of two different axes that occurs in some valid combination occurs in the result."""
-    keys = list(axes)
-    full = [c for c in product(axes) if valid is None or valid(c)]
-    if len(keys) < 2 or len(full) <= 4:
-        return full
-    if len(full) > 20000:
-        raise ValueError('pairwise: product too large (%d)' % len(full))
+_PW_CACHE = {}
 
-    def pairs(c):
-        return [(i, c[keys[i]], j, c[keys[j]]) for i in range(len(keys)) for j in range(i + 1, len(keys))]
-    todo = set()
-    for c in full:
-        todo.update(pairs(c))
-    out = []
-    cand = [(c, pairs(c)) for c in full]
-    while todo:
-        best, bestn = None, 0
-        for c, ps in cand:
-            n = sum(1 for p in ps if p in todo)
-            if n > bestn:
-                best, bestn = (c, ps), n
-        if best is None:
-            break
-        out.append(best[0])
-        todo.difference_update(best[1])
+
+def pairwise(axes, valid=None, key=None):
+    """Deterministic all-pairs covering array over `axes` (OrderedDict name -> list of hashable values): every pair of
+    values of two different axes that can be completed to a valid combination occurs in the result.
+    Pair-driven greedy construction (no enumeration of the full product): for every still uncovered value pair the other
+    axes are filled value by value so that as many uncovered pairs as possible are hit; invalid completions are retried
+    with pseudo-random fillings (fixed seed).  `key`: memoisation key (the catalogues are built several times per run)."""
+    import random
+    if key is not None and key in _PW_CACHE:
+        return [OrderedDict(c) for c in _PW_CACHE[key]]
+    keys = list(axes)
+    vals = [list(axes[k]) for k in keys]
+    n = len(keys)
+    size = 1
+    for v in vals:
+        size *= len(v)
+    if n < 2 or size <= 6:
+        return [c for c in product(axes) if valid is None or valid(c)]
+    rng = random.Random(20260926)
+    ok = (lambda c: True) if valid is None else valid
+    covered = set()
+    rows, rowset = [], set()
+
+    def mk(t):
+        return OrderedDict(zip(keys, t))
+
+    def cover(t):
+        for a in range(n):
+            for b in range(a + 1, n):
+                covered.add((a, t[a], b, t[b]))
+
+    def gain(t, a, v):
+        g = 0
+        for b in range(n):
+            if b != a and t[b] is not None:
+                p = (a, v, b, t[b]) if a < b else (b, t[b], a, v)
+                if p not in covered:
+                    g += 1
+        return g
+    for i in range(n):
+        for j in range(i + 1, n):
+            for vi in vals[i]:
+                for vj in vals[j]:
+                    if (i, vi, j, vj) in covered:
+                        continue
+                    found = None
+                    for attempt in range(40):
+                        t = [None] * n
+                        t[i], t[j] = vi, vj
+                        order = [a for a in range(n) if a not in (i, j)]
+                        if attempt:
+                            rng.shuffle(order)
+                        for a in order:
+                            if attempt < 2:
+                                best, bg = None, -1
+                                off = len(rows) + attempt
+                                for q in range(len(vals[a])):
+                                    v = vals[a][(q + off) % len(vals[a])]
+                                    g = gain(t, a, v)
+                                    if g > bg:
+                                        best, bg = v, g
+                                t[a] = best
+                            else:
+                                t[a] = vals[a][rng.randrange(len(vals[a]))]
+                        if ok(mk(t)):
+                            found = tuple(t)
+                            break
+                    if found is None:
+                        covered.add((i, vi, j, vj))      # no valid completion found: the pair is treated as infeasible
+                        continue
+                    cover(found)
+                    if found not in rowset:
+                        rowset.add(found)
+                        rows.append(found)
+    out = [mk(t) for t in rows]
+    if key is not None:
+        _PW_CACHE[key] = [tuple(c.items()) for c in out]
     return out
 
 
-def cross(tier, axes, valid=None):
-    """quick: all-pairs ; otherwise: full product."""
+def cross(tier, axes, valid=None, cap=400):
+    """quick: all-pairs ; otherwise: the full product if it has <= cap valid members, else all-pairs plus a deterministic
+    pseudo-random sample of the product (cap members)."""
+    import random
+    pw = pairwise(axes, valid)
     if tier == 'quick':
-        return pairwise(axes, valid)
-    return [c for c in product(axes) if valid is None or valid(c)]
+        return pw
+    keys = list(axes)
+    size = 1
+    for k in keys:
+        size *= len(axes[k])
+    if size <= 20 * cap:
+        full = [c for c in product(axes) if valid is None or valid(c)]
+        if len(full) <= cap:
+            return full
+        rng = random.Random(7)
+        pick = set(rng.sample(range(len(full)), cap))
+        seen = {tuple(c.values()) for c in pw}
+        return pw + [c for i, c in enumerate(full) if i in pick and tuple(c.values()) not in seen]
+    rng = random.Random(7)
+    seen = {tuple(c.values()) for c in pw}
+    out = list(pw)
+    tries = 0
+    while len(out) < len(pw) + cap and tries < 50 * cap:
+        tries += 1
+        c = OrderedDict((k, axes[k][rng.randrange(len(axes[k]))]) for k in keys)
+        t = tuple(c.values())
+        if t in seen or (valid is not None and not valid(c)):
+            continue
+        seen.add(t)
+        out.append(c)
+    return out
 
 
 def labels(combo, skip=()):
